@@ -376,6 +376,21 @@ def gen_pair(rng, tag):
             sz[0] += sz[0] % 2
             sz[1] += sz[1] % 2
         ep = [gp[0] + (gs[1] + es[1]) // 2, gp[1] + (gs[0] + es[0]) // 2, gp[2]]
+    elif tag == "corner_overlap":
+        # the boxes share only a small region at ONE corner (each of the four in turn): centres about half a diagonal + half a diagonal apart,
+        # i.e. further than half the longest sides; same orientation mostly (exact on the lattice for axis directions, rounded to the lattice for
+        # the rational circle points), half of them near-square
+        if rng.random() < 0.5:
+            gs[1] = max(2, gs[0] + rng.randint(-2, 2))
+        es = [max(2, gs[0] + rng.randint(-6, 6)), max(2, gs[1] + rng.randint(-6, 6)), max(1, gs[2] + rng.randint(-4, 4))]
+        gr = _rot(rng, 0.4)
+        er = gr if rng.random() < 0.7 else _rot(rng)
+        lo = 1 if gr[2] == 1 else 2
+        sx, sy = rng.choice((1, -1)), rng.choice((1, -1))
+        off = [sx * Fraction(gs[1] + es[1] - 2 * rng.randint(lo, 8), 2), sy * Fraction(gs[0] + es[0] - 2 * rng.randint(lo, 8), 2)]
+        c, sn, dn = gr
+        o = [(c * off[0] - sn * off[1]) / dn, (sn * off[0] + c * off[1]) / dn]
+        ep = [gp[0] + int(round(o[0])), gp[1] + int(round(o[1])), gp[2] + rng.randint(-2, 2)]
     elif tag == "disjoint":
         es = _size(rng)
         er = _rot(rng)
@@ -464,7 +479,7 @@ def gen_pair_float(rng):
     return {"pf": ep, "yaw": ey, "sf": es}, {"pf": gp, "yaw": gy, "sf": gs}
 
 
-TAGS = [("typical", 10), ("nested", 3), ("touching", 3), ("corner_touching", 1), ("disjoint", 2), ("near_disjoint", 3),
+TAGS = [("typical", 10), ("nested", 3), ("touching", 3), ("corner_touching", 1), ("corner_overlap", 3), ("disjoint", 2), ("near_disjoint", 3),
         ("sliver", 3), ("identical", 2), ("height", 3), ("tie", 3), ("integral", 3)]
 
 
@@ -495,6 +510,14 @@ REGRESSION = [
     ({"p": [0, 0, 0], "r": [3, 4, 5], "s": [1, 200, 8]}, {"p": [1, 1, 0], "r": [1, 0, 1], "s": [40, 40, 8]}),
     # z differs only: BEV distance would be 0
     ({"p": [40, 16, 24], "r": [1, 0, 1], "s": [16, 32, 12]}, {"p": [40, 16, 0], "r": [1, 0, 1], "s": [16, 32, 12]}),
+    # the same asymmetric pair with the ground truth in each quadrant around the ego: its nearest corner is footprint corner 2, 3, 0, 1 in turn
+    ({"p": [323, 194, 0], "r": [3, 4, 5], "s": [12, 30, 12]}, {"p": [320, 192, 0], "r": [1, 0, 1], "s": [16, 32, 12]}),
+    ({"p": [-317, 194, 0], "r": [3, 4, 5], "s": [12, 30, 12]}, {"p": [-320, 192, 0], "r": [1, 0, 1], "s": [16, 32, 12]}),
+    ({"p": [-317, -190, 0], "r": [3, 4, 5], "s": [12, 30, 12]}, {"p": [-320, -192, 0], "r": [1, 0, 1], "s": [16, 32, 12]}),
+    ({"p": [323, -190, 0], "r": [3, 4, 5], "s": [12, 30, 12]}, {"p": [320, -192, 0], "r": [1, 0, 1], "s": [16, 32, 12]}),
+    # two 2 m squares sharing a 0.25 m x 0.25 m corner region (centres 2.47 m apart, beyond half the longest sides), axis-aligned and turned
+    ({"p": [94, 54, 0], "r": [1, 0, 1], "s": [16, 16, 12]}, {"p": [80, 40, 0], "r": [1, 0, 1], "s": [16, 16, 12]}),
+    ({"p": [66, 26, 0], "r": [0, 1, 1], "s": [16, 16, 12]}, {"p": [80, 40, 0], "r": [1, 0, 1], "s": [16, 16, 12]}),
 ]
 
 
@@ -713,10 +736,22 @@ class Box3dCorr(Corr):
              "iou3_zero_iou2_pos": 0, "exact_tie_2nd_3rd": 0, "tie_resolved_like_stable_sort": 0, "pure_rotation_motions": 0,
              "max_size_ratio": 0.0, "lr_compared_ordered": 0, "map_frame_renderings": 0, "moved_pair_derived_by_deepcopy_and_state_update": 0,
              "scores_also_read_off_DynamicObjectWithPerceptionResult": 0, "representations": {}, "negated_quaternion": 0, "int_typed_position_and_size": 0,
-             "map_rendering_derived_from_scored_objects_and_updated_registry": 0}
+             "map_rendering_derived_from_scored_objects_and_updated_registry": 0,
+             "nearest_gt_corner_index": {"0": 0, "1": 0, "2": 0, "3": 0}, "reported_nearest_gt_side": {},
+             "overlapping_pairs_with_centres_beyond_half_the_longest_sides": 0, "of_those_sharing_less_than_2_percent_of_the_smaller_footprint": 0}
         for c, o in zip(cases, obs):
             if "__harness_exception__" in o:
                 continue
+            E_, G_ = params(c["e"]), params(c["g"])
+            dg = [sqn(q) for q in corners_exact(G_)]
+            d["nearest_gt_corner_index"][str(min(range(4), key=lambda k: (dg[k], k)))] += 1
+            sd = "-".join(str(k) for k in sorted((o["gl"], o["gr"])))
+            d["reported_nearest_gt_side"][sd] = d["reported_nearest_gt_side"].get(sd, 0) + 1
+            if o["i2"] > 0 and (E_["x"] - G_["x"]) ** 2 + (E_["y"] - G_["y"]) ** 2 > ((max(E_["w"], E_["l"]) + max(G_["w"], G_["l"])) / 2) ** 2:
+                d["overlapping_pairs_with_centres_beyond_half_the_longest_sides"] += 1
+                ae_, ag_ = float(E_["w"] * E_["l"]), float(G_["w"] * G_["l"])
+                inter_ = o["i2"] * (ae_ + ag_) / (1 + o["i2"])
+                d["of_those_sharing_less_than_2_percent_of_the_smaller_footprint"] += inter_ < 0.02 * min(ae_, ag_)
             d["tags"][c["tag"]] = d["tags"].get(c["tag"], 0) + 1
             d["map_frame_renderings"] += o.get("map") is not None
             d["moved_pair_derived_by_deepcopy_and_state_update"] += bool(o.get("mv_derived"))
@@ -940,7 +975,7 @@ class C06(Prop):
                   "evaluator, and shapely is tied to the evaluator by the per-run comparison (1e-9). Distances are compared squared (no sqrt in Q). "
                   "Yaw-only boxes; BASE_LINK frame and MAP frame with the ego transform; BOUNDING_BOX shapes.")
     rule = ("box3d: pairs of real DynamicObjects on the k/8 lattice with yaw from 32 rational circle points + 4 axis directions, streams "
-            "typical/nested/touching/corner-touching/disjoint/near-disjoint/sliver (to 1:200)/identical/height/tie + a continuous stream (1/25 of "
+            "typical/nested/touching/corner-touching/corner-overlap (a small shared region at one of the four corners, centres beyond half the longest sides, half of them near-square)/disjoint/near-disjoint/sliver (to 1:200)/identical/height/tie + a continuous stream (1/25 of "
             "the cases: arbitrary binary64 centres, yaw angles and sizes 0.05..30 m, passed to Coq as exact rationals), each also swapped and after a "
             "common rigid motion (half of them pure rotations about the ego) and rendered in the MAP frame through that motion as ego pose with the frame's transforms; roi2d: integer ROI pairs incl. odd/even sizes, 1-pixel ROIs, "
             "touching, nested, each also swapped and translated; non-trivial = different boxes with 0 < IoU < 1 or a positive distance; "
@@ -948,7 +983,9 @@ class C06(Prop):
             "and must be the identical number; positions / sizes / ROIs are handed over as tuple, list or numpy array and, in the `integral` stream (whole "
             "metres, odd sizes, axis motions), as Python ints; either sign of each quaternion (the map rendering carries the opposite sign of the ego one); "
             "half of the map renderings are derived by deepcopy + state update from map objects already scored under ANOTHER ego pose through a registry "
-            "that is then updated in place; half of the ROI pairs carry an unrelated 3D position on the 2D objects (ROI centres, not state.position)")
+            "that is then updated in place; half of the ROI pairs carry an unrelated 3D position on the 2D objects (ROI centres, not state.position); "
+            "regression inputs put one asymmetric pair into each quadrant around the ego (nearest ground-truth corner = footprint corner 2, 3, 0, 1 in turn; the distribution counts it per run) "
+            "and two 2 m squares sharing a 0.25 m corner region")
     assumptions = [
         "shapely's footprint.intersection(footprint).area agrees with the exact evaluator inter_clip within 1e-9 (checked on every generated pair, "
         "every run); the hypotheses of the abstract C06_iou_* theorems are PROVED for inter_clip (Props/C06Clip.v: C06_clip_inter_satisfies_hypotheses)",
